@@ -18,13 +18,13 @@ CLAIMED = {
     "C07": dict(category="proof",
         text="PARTIAL (verifier freshness and file-system layer tied by oracle). Lean theorems: loss only as a suffix of the append order and never below a durable group commit; a flush makes "
              "everything before it durable; committed level reported = requested, or FILE_SYNC with the unstable option off, never weaker; written data readable immediately. Ties: crash images "
-             "of write-stability workloads (stability classified by the reply) recovered by the real server; verifier compared across instances; every WRITE/COMMIT/READ reply compared with the model.",
+             "of write-stability workloads (stability classified by the reply) recovered by the real server; verifier compared across instances; every WRITE/COMMIT/READ reply compared with the model. Also: only_write_commits_without_waiting on the regenerated tables of commit paths and CommitUnstable callers.",
         design_ref="DESIGN.md 5/C07", note="trusted: Lean kernel, WAL and reference models, recording disk and crash-image harness",
         technique="Lean 4 proof (WAL suffix-loss, reply decision table) + crash-image recovery oracle + correspondence"),
     "C02": dict(category="proof",
         text="Refinement to a reference file system written in Lean (Model/Fs.lean): theorems that the reference is a plain file system (written bytes are read back, "
              "created names resolve to the returned handle, read-only procedures and restarts are the identity, refused procedures have no effect); the deciding half is the "
-             "correspondence: every reply of every operation of generated histories (directed scenarios + state-aware random sequences, restarts interleaved) is compared.",
+             "correspondence: every reply of every operation of generated histories (directed scenarios + state-aware random sequences, restarts interleaved) is compared. Also: block-map correspondence, full-disk scenarios with read-back oracles, and the lock traces of the sequential run validated as two-phase.",
         design_ref="DESIGN.md 5/C02", note="trusted: Lean kernel, the hand-written reference model (validated by the correspondence itself), harness generators; statuses compared by class; timestamps not compared",
         technique="Lean 4 reference model + theorems; model/implementation correspondence on operation sequences"),
     "C03": dict(category="proof",
@@ -62,12 +62,12 @@ CLAIMED = {
     "C08": dict(category="proof",
         text="Lean theorems on the reference model: generations are monotone and bump at every allocation/free, a dead handle stays dead after ANY history (stale_forever), every "
              "procedure and handle position refuses a dead handle, created handles are fresh; correspondence with a stale-handle bank, forced inode-number reuse and an "
-             "implementation-side oracle (no OK for a dead handle, no handle issued twice); a handle given to ANOTHER client survives a crash (M14 + crash right after every reply that reveals a name).",
+             "implementation-side oracle (no OK for a dead handle, no handle issued twice); a handle given to ANOTHER client survives a crash (M14 + crash right after every reply that reveals a name). Also: handles_are_revalidated_after_locking_by_number on the regenerated table of lockInodes callers; lock traces of the sequential run two-phase.",
         design_ref="DESIGN.md 5/C08", note="trusted: Lean kernel, reference model, harness; inode-number reuse forced by moving the allocator's roving pointer",
         technique="Lean 4 proof (invariant over histories) + correspondence"),
     "C09": dict(category="proof",
         text="Lean theorem error_identity (a non-OK reply returns the state unchanged; failed operations can be dropped from any history) on the reference model; correspondence plus an "
-             "implementation-side oracle comparing full tree dumps and allocator free counts around every failing request.",
+             "implementation-side oracle comparing full tree dumps and allocator free counts around every failing request. Also: an_abort_forgets_every_inode_of_the_transaction on the regenerated statement lists of fstxn/commit.go; another client's request scheduled inside the abort of a failing request; lock traces two-phase.",
         design_ref="DESIGN.md 5/C09", note="trusted: Lean kernel, reference model, harness; NOSPC paths are covered by implementation-side oracles only (the model has no disk-full state)",
         technique="Lean 4 proof + correspondence + dump comparison around failures"),
     "C10": dict(category="proof",
@@ -88,12 +88,12 @@ CLAIMED = {
         text="Lean theorems (byte level) on the reference model: never-written bytes read as zero for every history of writes/truncations, shrink-then-grow exposes zeros, writes touch "
              "one file; at the level of disk blocks (the bytes of files on blocks under the pointer tree, any number of files sharing the disk, blocks passing from file to file through the allocator): "
              "after any history every file shows exactly its own content log, a truncation clears the kept last block, growth exposes zeros, and that a block handed out holds zeros follows from the "
-             "invariant kept by FreeBlock's zeroing (no_file_ever_shows_foreign_bytes). Correspondence: every READ reply compared byte for byte on sequences that shrink, re-grow, delete and recycle blocks.",
+             "invariant kept by FreeBlock's zeroing (no_file_ever_shows_foreign_bytes). Correspondence: every READ reply compared byte for byte on sequences that shrink, re-grow, delete and recycle blocks. Also: full-disk scenarios, the atxn correspondence (a freed block is not available before the commit that zeroes it), crash images whose recovered servers are probed with never-written files, lock traces two-phase.",
         design_ref="DESIGN.md 5/C12", note="trusted: Lean kernel, reference model, harness; the block-level models are tied to the code through theorems to models that have correspondences (reference model, pointer tree)",
         technique="Lean 4 proof + correspondence"),
     "C13": dict(category="proof",
         text="Lean theorems about the paging function for arbitrary budgets (READDIR and READDIRPLUS are instances): page soundness, progress, no gaps, completeness at eof, and "
-             "enumeration_exact: iterating from cookie 0 with any limits returns every live entry exactly once and terminates; correspondence on every listing reply + implementation-side paging oracle.",
+             "enumeration_exact: iterating from cookie 0 with any limits returns every live entry exactly once and terminates; correspondence on every listing reply + implementation-side paging oracle. Also: no_operation_moves_an_entry, directory_size_is_its_slots, a_live_directory_never_loses_slots (invariants of every operation of the reference model).",
         design_ref="DESIGN.md 5/C13", note="trusted: Lean kernel, reference model of dir.Apply/ApplyEnts byte accounting (validated by correspondence), harness",
         technique="Lean 4 proof (induction over slot lists) + correspondence"),
     "C17": dict(category="proof",
@@ -109,7 +109,7 @@ CLAIMED = {
         technique="Lean 4 proof (history induction) + correspondence"),
     "C19": dict(category="proof",
         text="Lean theorems over announced values regenerated by running the real FSINFO/PATHCONF: name_max, maxfilesize, wtmax are exactly the model's acceptance bounds, requests beyond "
-             "are refused without effect, wtmax fits the journal (arithmetic); correspondence + implementation-side probe at limit and limit+1.",
+             "are refused without effect, wtmax fits the journal (arithmetic); correspondence + implementation-side probe at limit and limit+1. Also: invariants of the reference model for every history (no file larger than maxfilesize, no name longer than name_max) and the initattr probe (creating procedures with an initial size beyond the maximum).",
         design_ref="DESIGN.md 5/C19", note="trusted: Lean kernel, translator (announce/consts), reference model, harness",
         technique="Lean 4 proof over regenerated constants + correspondence"),
     "C14": dict(category="proof",
